@@ -73,6 +73,17 @@ CHECKS["C10"] = dict(
           "observer for the data-race clause on the executed schedules; marching compared on the Position attribute."),
     design="3/C10 and NOTES-c10.md", technique="TLA+ spec + TLC-generated schedules imposed on goroutines + TLC trace validation")
 
+CHECKS["C06"] = dict(
+    text=("GltfDoc.tla: glTF document tables with Valid (container/chunk arithmetic, index references, view and accessor ranges, "
+          "component alignment, declared min/max, index values and width, equal attribute counts, extension declarations) and "
+          "Denote/sharing predicates; GltfWriter.tla: implementation-shaped writer model (bytesWritten, dedup tables) on which TLC "
+          "reproduces the unaligned-view, material-reference and material-once counterexamples and proves the repaired design. "
+          "TLC-generated scene descriptors are written by the real WriteBinary/WriteText, parsed by an independent GLB/JSON/base64 "
+          "parser and judged line by line by TraceGltf.tla."),
+    note=("Trusted base: TLC; independent parser harness/gltffam; float32 images compared on bit patterns. Three open known findings "
+          "(unaligned views after odd 16-bit index counts - pinned by the repository's own writer tests; scalar attributes not carried)."),
+    design="3/C06 and NOTES-gltf.md", technique="TLA+ spec + TLC-generated scenes written by real code + TLC trace validation")
+
 NOT_APPLICABLE = []
 
 
